@@ -50,6 +50,41 @@ typedef struct
 
 } Skinny64CTRVec128Ctx_t;
 
+/* Decrement a specific column in an array of row vectors */
+STATIC_INLINE void skinny64_ctr_decrement
+    (SkinnyVector8x16_t *counter, unsigned column, unsigned dec)
+{
+    uint8_t *ctr = ((uint8_t *)counter) + column * 2;
+    uint8_t *ptr;
+    unsigned index;
+    for (index = 8; index > 0; ) {
+        --index;
+        ptr = ctr + (index & 0x06) * 8;
+#if SKINNY_LITTLE_ENDIAN
+        ptr += index & 0x01;
+#else
+        ptr += 1 - (index & 0x01);
+#endif
+        dec = ptr[0] - dec;
+        ptr[0] = (uint8_t)dec;
+        dec = (dec >> 8) & 1;
+    }
+}
+
+/* Discard the unused keystream and rewind the counters so that the next
+   keystream block uses the first counter value that has not been consumed
+   at all, which is what the non-vectorized back end does */
+static void skinny64_ctr_vec128_reset_keystream(Skinny64CTRVec128Ctx_t *ctx)
+{
+    if (ctx->offset < SKINNY64_CTR_BLOCK_SIZE) {
+        unsigned unused = (SKINNY64_CTR_BLOCK_SIZE - ctx->offset) / SKINNY64_BLOCK_SIZE;
+        unsigned column;
+        for (column = 0; unused && column < 8; ++column)
+            skinny64_ctr_decrement(ctx->counter, column, unused);
+        ctx->offset = SKINNY64_CTR_BLOCK_SIZE;
+    }
+}
+
 static int skinny64_ctr_vec128_set_counter
     (Skinny64CTR_t *ctr, const void *counter, unsigned size);
 
@@ -94,7 +129,7 @@ static int skinny64_ctr_vec128_set_key(Skinny64CTR_t *ctr, const void *key, unsi
         return 0;
 
     /* Reset the keystream */
-    ctx->offset = SKINNY64_CTR_BLOCK_SIZE;
+    skinny64_ctr_vec128_reset_keystream(ctx);
     return 1;
 }
 
@@ -115,7 +150,7 @@ static int skinny64_ctr_vec128_set_tweaked_key
         return 0;
 
     /* Reset the keystream */
-    ctx->offset = SKINNY64_CTR_BLOCK_SIZE;
+    skinny64_ctr_vec128_reset_keystream(ctx);
     return 1;
 }
 
@@ -134,7 +169,7 @@ static int skinny64_ctr_vec128_set_tweak
         return 0;
 
     /* Reset the keystream */
-    ctx->offset = SKINNY64_CTR_BLOCK_SIZE;
+    skinny64_ctr_vec128_reset_keystream(ctx);
     return 1;
 }
 
